@@ -235,13 +235,16 @@ def r3(ctx, g):
     init = ctx.repo.func("c2profile.DataTransformBlock.__init__")
     tr = aliases_of(g, ["transform_statement"])
     te = aliases_of(g, ["termination_statement"])
+    from csverif.q import dominating_conditions
     sets = []
-    for st in statements(init.node):
-        if isinstance(st, ast.If) and isinstance(st.test, ast.Compare) and isinstance(st.test.ops[0], ast.In):
-            vals = _c(st.test.comparators[0])
-            call = [c for s in st.body for c in ast.walk(s) if isinstance(c, ast.Call) and dotted(c.func) in ("self.add_step", "self.add_termination")]
-            if vals and call:
-                sets.append((set(v.replace("-", "_") for v in vals), dotted(call[0].func).split(".")[-1], 0 if (isinstance(call[0].args[1], ast.Constant) and call[0].args[1].value is None) else 1))
+    for c in fn_calls(init.node):
+        if dotted(c.func) in ("self.add_step", "self.add_termination") and len(c.args) == 2:
+            # the innermost membership test that holds where this call is made names the step set it serves
+            mem = [(n, pol) for t, pol, n in dominating_conditions(ctx, init, c) if isinstance(n, ast.Compare) and len(n.ops) == 1 and isinstance(n.ops[0], ast.In) and _c(n.comparators[0])]
+            pos = [n for n, pol in mem if pol]
+            if pos:
+                vals = _c(pos[-1].comparators[0])
+                sets.append((set(v.replace("-", "_") for v in vals), dotted(c.func).split(".")[-1], 0 if (isinstance(c.args[1], ast.Constant) and c.args[1].value is None) else 1))
     want_step0 = {a for a, ar in tr.items() if 0 in ar}
     want_term0 = {a for a, ar in te.items() if 0 in ar}
     want_term1 = {a for a, ar in te.items() if 1 in ar}
